@@ -362,8 +362,20 @@ impl Sim {
         self.log.borrow_mut().evals.clear();
         let mut sink = RecSink::default();
         aranya_runtime::verif::set_fuel(self.cfg.fuel);
+        if pred.creates_graph {
+            self.fs_attempt(r, pred.accepted.iter().take(1).copied().collect());
+        }
         let res = with_rep!(&mut self.reps[r], rep => rep.add(t, cmds, &mut sink));
         aranya_runtime::verif::set_fuel(u64::MAX);
+        if pred.creates_graph {
+            let created = matches!(&res, Guarded::Done(r) if !matches!(r, Err(ClientError::StorageError(_)) | Err(ClientError::InitError)));
+            self.fs_done(r, created);
+        }
+        if self.fs_hard(r) && matches!(res, Guarded::Done(Err(_))) {
+            self.stats.bump("fault.disk_error_failed_call");
+            self.mark_dead_trx(r, t);
+            return 0;
+        }
         let res = match res {
             Guarded::Done(x) => x,
             Guarded::Panicked(m) => {
@@ -644,8 +656,11 @@ impl Sim {
         self.log.borrow_mut().evals.clear();
         let mut sink = RecSink::default();
         aranya_runtime::verif::set_fuel(self.cfg.fuel);
+        self.fs_attempt(r, new_set.clone());
         let (res, shadow) = with_rep!(&mut self.reps[r], rep => rep.commit(t, &mut sink));
         aranya_runtime::verif::set_fuel(u64::MAX);
+        self.fs_done(r, matches!(res, Guarded::Done(Ok(true))));
+        let hard = self.fs_hard(r);
         let sf = &self.spill_faults[r];
         sf.fail_at.set(None);
         let spill_fired = sf.fired.get() > fired_before;
@@ -714,6 +729,11 @@ impl Sim {
                 // Narrow relaxation: the injected spill error may fail the call, nothing else.
                 self.stats.bump("fault.spill_error_failed_call");
                 unchanged(self, &format!("injected spill error ({})", classify(&e)), "C02");
+            }
+            (Err(_), _) if hard => {
+                // Injected disk error: the call may fail; the replica is restarted and must
+                // recover a committed state (checked in `step_restart`).
+                self.stats.bump("fault.disk_error_failed_call");
             }
             (Err(e), Want::Commit) if classify(&e) == "EmptyPerspective" && self.last_rejected[r].is_some() => {
                 self.violation("C06", "C06.accepted-not-committed", "empty-perspective-after-rejection", format!("{ctx}: commit failed with EmptyPerspective after a rejected command; {} accepted commands are lost", acc.len()));
@@ -814,8 +834,16 @@ impl Sim {
         self.log.borrow_mut().actions.clear();
         let mut sink = RecSink::default();
         aranya_runtime::verif::set_fuel(self.cfg.fuel);
+        {
+            let mut would_be = self.committed(r).clone();
+            would_be.extend(merges.iter().copied());
+            would_be.extend(published.iter().copied());
+            self.fs_attempt(r, would_be);
+        }
         let res = with_rep!(&mut self.reps[r], rep => rep.action(gid, DagAction { cmds: cmds.to_vec(), fail_at }, &mut sink));
         aranya_runtime::verif::set_fuel(u64::MAX);
+        self.fs_done(r, matches!(res, Guarded::Done(Ok(()))));
+        let hard = self.fs_hard(r);
         let sf = &self.spill_faults[r];
         sf.fail_at.set(None);
         let spill_fired = sf.fired.get() > fired_before;
@@ -906,6 +934,9 @@ impl Sim {
                 self.stats.bump("fault.spill_error_failed_call");
                 unchanged(self, &format!("injected spill error ({})", classify(&e)));
             }
+            (Err(_), _) if hard => {
+                self.stats.bump("fault.disk_error_failed_call");
+            }
             (Ok(()), false) => {
                 self.violation("C07", "C07.action-outcome", "action-should-fail", format!("{ctx}: action succeeded although command evaluation fails in the model"));
                 self.dead = true;
@@ -928,6 +959,10 @@ impl Sim {
         self.log.borrow_mut().actions.clear();
         self.log.borrow_mut().evals.clear();
         let res = with_rep!(&mut self.reps[r], rep => rep.new_graph(DagAction { cmds, fail_at: None }, &mut sink));
+        if self.fs_hard(r) && matches!(res, Guarded::Done(Err(_))) {
+            self.stats.bump("fault.disk_error_failed_call");
+            return;
+        }
         match res {
             Guarded::Done(Ok(gid)) => {
                 let act = self.log.borrow().actions.first().cloned().expect("init action ran");
@@ -944,6 +979,7 @@ impl Sim {
                     rep.committed.insert(init.id);
                     rep.counter += 1;
                 });
+                self.fs_done(r, true);
                 self.log.borrow_mut().evals.clear();
                 self.check_committed(r, "new_graph");
             }
